@@ -623,7 +623,9 @@ func genAttest(w *World) sdk.Msg {
 	return &data.MsgAttest{Attestor: w.AddrStr("a", w.anyAcct("attestor")), ContentHashes: hs}
 }
 
-var resolverURLs = []string{"https://foo.bar", "https://foo.bar/a", "https://regen.network", "http://x.y"}
+// every entry is accepted by MsgDefineResolver.ValidateBasic (url.ParseRequestURI): absolute URLs, URIs
+// without an authority, and absolute paths
+var resolverURLs = []string{"https://foo.bar", "https://foo.bar/a", "https://regen.network", "http://x.y", "/ipfs/gateway", "ipfs:QmYwAPJzv5CZsnA", "urn:regen:resolver", "file:///data", "https://foo.bar:8080/a?b=c#d", "HTTPS://FOO.BAR"}
 
 func genDefineResolver(w *World) sdk.Msg {
 	u := pickOf(w, "url", resolverURLs)
